@@ -447,6 +447,11 @@ class Executor(ExprMixin, StmtMixin, Engine):
         return mk_str(z3.Concat(*parts) if len(parts) > 1 else parts[0])
 
     def to_str(self, st, v):
+        if isinstance(v.t, TOpt) and isinstance(v.t.elem, (TInt, TStr)):
+            # formatting an Optional: only when it is known not to be None here (otherwise the text
+            # would be 'None', which no contract in the subset talks about)
+            self.prove(st, z3.Not(opt_is_none(v)), 'encoding', getattr(self, 'cur_line', 0), 'format-of-optional-is-some')
+            v = opt_val(v)
         if isinstance(v.t, TStr):
             return v
         if isinstance(v.t, TInt):
